@@ -76,6 +76,7 @@ def _seed_dropped_when_zero(v: Any) -> Any:
 
 def run(prog: Program, rep: Report, tier: str) -> None:
     rep.rule("R4.1", "normal form of the signer equals p ++ LE16(crc_hqx(p,0x1021)) ++ LE16(crc_hqx(LE16bytes(c1) ++ 0x30*32, 0x1021))", 1)
+    rep.rule("R4.4", "no returning path returns the parameter itself (an 'already signed' shortcut): the result always has something appended", 1, structural=True)
     rep.rule("R4.2", "the parameter is returned unmodified as prefix; no clock, global, attribute or I/O is read (deterministic)", 2)
     rep.rule("R4.3", "every normal return is guarded by a successful unhexlify of the *parameter*; invalid hex / odd length raise a ValueError subclass and nothing is returned", 3)
     rep.trusted += [
@@ -98,6 +99,15 @@ def run(prog: Program, rep: Report, tier: str) -> None:
     rep.analysed["paths"] = len(outs)
     exp = expected(p)
     rep.sample({"function": FUNC, "expected_normal_form": T.show(exp), "paths": [(o.kind, o.exc_name, T.show(conj(o.state.pc))[:300]) for o in outs]})
+    # R4.4 (structural: decided on the returned term alone, whatever else the analysis could not follow)
+    pw = T.seq("s", (("whole", p),))
+    for k, o in enumerate(rets):
+        if o.value == pw or o.value == p:
+            rep.bad("R4.4", f"path {k} returns the packet unsigned", where,
+                    f"a returning path hands back the parameter itself (under {T.show(conj(o.state.pc))[:200]}): nothing is appended, so for those packets the result is not p followed by its "
+                    f"four signature bytes - whatever the condition is meant to recognise, a packet whose last bytes happen to satisfy it is sent unsigned", key="R4.4|unsigned-return")
+        else:
+            rep.ok("R4.4", f"path {k}", where, "the returned value is not the bare parameter")
     # R4.1
     if not rets:
         rep.bad("R4.1", "normal-form", where, "signer never returns normally")
